@@ -79,6 +79,27 @@ theorem ofBits_toBits (bytes : List UInt8) (n : Nat) (h : toBits bytes = some n)
       simpa using this
   · cases h
 
-#print axioms toBits_ofBits
-#print axioms ofBits_toBits
+/-- `From<i32>` / `From<i16>` / `From<i8>` / `From<f32>`: the `w` big-endian bytes of the `8·w`-bit pattern -/
+def ofBitsW (w n : Nat) : List UInt8 := (encLE w n).reverse
+
+theorem ofBitsW_length (w n : Nat) : (ofBitsW w n).length = w := by simp [ofBitsW, encLE_length]
+
+/-- the pattern can be read back from the bytes -/
+theorem val_ofBitsW (w n : Nat) (h : n < 256 ^ w) : valLE (ofBitsW w n).reverse = n := by
+  simp only [ofBitsW, List.reverse_reverse]; exact valLE_encLE w n h
+
+/-- the eight-byte conversion is the `w = 8` instance -/
+theorem ofBitsW_eight (n : Nat) : ofBitsW 8 n = ofBits n := rfl
+
+/-- `From<bool>`: one byte, 1 or 0 -/
+def ofBool (b : Bool) : List UInt8 := [if b then 1 else 0]
+
+/-- `to_bool`: the first byte is 1; `none` = panic (index 0 of an empty slice) -/
+def toBool (bytes : List UInt8) : Option Bool := bytes[0]?.map (· == 1)
+
+theorem toBool_ofBool (b : Bool) : toBool (ofBool b) = some b := by cases b <;> rfl
+
+theorem toBool_panics_iff (bytes : List UInt8) : toBool bytes = none ↔ bytes = [] := by
+  cases bytes <;> simp [toBool]
+
 end HI
